@@ -425,12 +425,14 @@ package pokertable
 //@ spec PS(te) = te.table.State.PlayerStates
 //@ spec GPI(te) = te.table.State.GamePlayerIndexes
 //@ spec MaxSeats(te) = te.table.Meta.TableMaxSeatCount
-//@ spec EngShape(te) = te != nil && te.table != nil && St(te) != nil && 2 <= MaxSeats(te) && MaxSeats(te) <= 10
-//@     && 0 <= len(PS(te)) && len(PS(te)) <= MaxSeats(te)
-//@     && forall(i, 0, 10, i < len(PS(te)) ==> PS(te)[i] != nil)
-//@     && forall(i, 0, 10, forall(j, 0, 10, i < j && j < len(PS(te)) ==> PS(te)[i] != PS(te)[j]))
-//@ spec HandShape(te) = 0 <= len(GPI(te)) && len(GPI(te)) <= len(PS(te))
-//@     && forall(k, 0, 10, k < len(GPI(te)) ==> 0 <= GPI(te)[k] && GPI(te)[k] < len(PS(te)))
+//@ spec TblShape(t) = t != nil && t.State != nil && 2 <= t.Meta.TableMaxSeatCount && t.Meta.TableMaxSeatCount <= 10
+//@     && 0 <= len(t.State.PlayerStates) && len(t.State.PlayerStates) <= t.Meta.TableMaxSeatCount
+//@     && forall(i, 0, 10, i < len(t.State.PlayerStates) ==> t.State.PlayerStates[i] != nil)
+//@     && forall(i, 0, 10, forall(j, 0, 10, i < j && j < len(t.State.PlayerStates) ==> t.State.PlayerStates[i] != t.State.PlayerStates[j]))
+//@ spec TblHand(t) = 0 <= len(t.State.GamePlayerIndexes) && len(t.State.GamePlayerIndexes) <= len(t.State.PlayerStates)
+//@     && forall(k, 0, 10, k < len(t.State.GamePlayerIndexes) ==> 0 <= t.State.GamePlayerIndexes[k] && t.State.GamePlayerIndexes[k] < len(t.State.PlayerStates))
+//@ spec EngShape(te) = te != nil && TblShape(te.table)
+//@ spec HandShape(te) = TblHand(te.table)
 // shape of a hand state as produced by the game backend (assumed of GameBackend implementations; pokerface never stores nil players)
 //@ spec GsShape(gs) = 0 <= len(gs.Players) && len(gs.Players) <= 10 && forall(k, 0, 10, k < len(gs.Players) ==> gs.Players[k] != nil)
 //@ spec TableGsOK(te) = St(te).GameState != nil ==> GsShape(St(te).GameState)
@@ -808,7 +810,7 @@ package pokertable
 //@   ensures showdown-win-implies-chance: forall(i, 0, 10, i < len(PS(te)) ==> (PS(te)[i].GameStatistics.IsShowdownWinning ==> PS(te)[i].GameStatistics.ShowdownWinningChance))
 
 //@ func (*tableEngine).continueGame$2
-//@   property C07 C08
+//@   property C07 C08 C12
 //@   returns err
 //@   requires te != nil && te.table != nil && St(te) != nil && St(te).BlindState != nil && 0 <= len(PS(te)) && len(PS(te)) <= 10
 //@   requires forall(i, 0, 10, i < len(PS(te)) ==> PS(te)[i] != nil)
@@ -838,7 +840,7 @@ package pokertable
 //@   inline
 
 //@ func (*tableEngine).continueGame
-//@   property C05 C07 C08 C14 C15
+//@   property C05 C06 C07 C08 C14 C15
 //@   returns err
 //@   config M 2..10 : te.table.Meta.TableMaxSeatCount = M, te.sm.MaxSeat = M, len(te.sm.SeatData) = M
 //@   requires TableWF(te) && Coupled(te) && St(te).BlindState != nil && te.options != nil
@@ -869,7 +871,7 @@ package pokertable
 //@   allocates
 //@   ensures err == nil ==> c != nil && fresh(c) && c.State != nil && fresh(c.State) && c.ID == t.ID && c.Meta == t.Meta && c.UpdateSerial == t.UpdateSerial
 //@             && c.State.Status == t.State.Status && c.State.GameCount == t.State.GameCount && c.State.StartAt == t.State.StartAt
-//@             && c.State.CurrentActionEndAt == t.State.CurrentActionEndAt && c.State.GameState == nil == (t.State.GameState == nil)
+//@             && c.State.CurrentActionEndAt == t.State.CurrentActionEndAt && (c.State.GameState == nil <==> t.State.GameState == nil)
 //@             && len(c.State.PlayerStates) == len(t.State.PlayerStates) && fresh(c.State.PlayerStates)
 //@             && forall(i, 0, 10, i < len(t.State.PlayerStates) ==> fresh(c.State.PlayerStates[i]) && playerCopied(c.State.PlayerStates[i], t.State.PlayerStates[i]))
 //@             && forall(i, 0, 10, forall(j, 0, 10, i < j && j < len(t.State.PlayerStates) ==> c.State.PlayerStates[i] != c.State.PlayerStates[j]))
@@ -916,6 +918,7 @@ package pokertable
 //@   trusted placeholder until the C06 contract lands: writes only the Positions of the given players
 //@   modifies forall(i, 0, 10, i < len(players) ==> players[i].Positions)
 //@   allocates
+//@   ensures forall(i, 0, 10, i < len(players) ==> 0 <= len(players[i].Positions) && len(players[i].Positions) <= 10)
 
 //@ func (TableBlindState).IsSet
 //@   inline
@@ -926,7 +929,8 @@ package pokertable
 //@   property C05 C07 C12
 //@   returns nt, err
 //@   config M 2..10 : te.table.Meta.TableMaxSeatCount = M, te.sm.MaxSeat = M, len(te.sm.SeatData) = M
-//@   requires TableWF(te) && Coupled(te) && oldTable == te.table && St(te).BlindState != nil
+//@   requires TableWF(te) && Coupled(te) && oldTable == te.table && St(te).BlindState != nil && St(te).GameState == nil
+//@   requires te.table.Meta.Rule == CompetitionRule_Default && te.sm.Rule == "default"     // default-rule tables; short deck is not covered by this contract
 //@   modifies te.sm.DealerSeatID, te.sm.SBSeatID, te.sm.BBSeatID, te.sm.IsInit, forall(s, 0, M, te.sm.SeatData[s].IsBetweenDealerBB)
 //@   loop 0 unroll 10
 //@   ensures blinds-not-set-refused: !(St(te).BlindState.Level != 0 && St(te).BlindState.Ante != -1 && St(te).BlindState.Dealer != -1 && St(te).BlindState.SB != -1 && St(te).BlindState.BB != -1)
@@ -937,6 +941,9 @@ package pokertable
 //@   ensures opened-on-a-copy: err == nil ==> nt != nil && fresh(nt) && nt != oldTable && nt.State != nil && nt.State.Status == TableStateStatus_TableGameOpened
 //@             && nt.State.GameCount == St(te).GameCount + 1
 //@             && nt.State.CurrentDealerSeat == te.sm.DealerSeatID && nt.State.CurrentSBSeat == te.sm.SBSeatID && nt.State.CurrentBBSeat == te.sm.BBSeatID
+//@   ensures opened-table-is-well-formed: err == nil ==> TblShape(nt) && TblHand(nt) && fresh(nt.State) && nt.ID == oldTable.ID && nt.Meta == oldTable.Meta && len(nt.State.GamePlayerIndexes) >= 2
+//@             && nt.State.BlindState != nil && fresh(nt.State.BlindState) && nt.State.BlindState.Level == St(te).BlindState.Level && nt.State.GameState == nil
+//@             && forall(i, 0, 10, i < len(nt.State.PlayerStates) ==> fresh(nt.State.PlayerStates[i]) && 0 <= len(nt.State.PlayerStates[i].Positions) && len(nt.State.PlayerStates[i].Positions) <= 10)
 //@   ensures exactly-the-eligible-are-dealt-in: err == nil ==> len(nt.State.PlayerStates) == len(PS(te))
 //@             && forall(i, 0, 10, i < len(PS(te)) ==> (nt.State.PlayerStates[i].IsParticipated <==> ActiveAt(te.sm, PS(te)[i].Seat)))
 //@   ensures at-least-two-dealt-in: err == nil ==> activeCount(te.sm) >= 2
@@ -1135,3 +1142,27 @@ package pokertable
 //@   ensures exactly-that-much: err == nil ==> exists(i, 0, 10, i < len(PS(te)) && PS(te)[i].PlayerID == joinPlayer.PlayerID
 //@             && PS(te)[i].Bankroll == old(PS(te)[i].Bankroll) + joinPlayer.RedeemChips
 //@             && forall(j, 0, 10, j < len(PS(te)) && j != i ==> PS(te)[j].Bankroll == old(PS(te)[j].Bankroll)))
+
+// the round-closed hook registered by startGame clears the published deadline (C15)
+//@ func (*tableEngine).startGame$5
+//@   property C15
+//@   requires te != nil && te.table != nil && St(te) != nil
+//@   modifies St(te).CurrentActionEndAt
+//@   ensures deadline-cleared-when-the-round-closes: St(te).CurrentActionEndAt == 0
+
+// the error hook registered by startGame hands a backend failure of an engine-driven step to the table error callback (C13)
+//@ func (*tableEngine).emitErrorEvent
+//@   inline
+
+//@ func (*tableEngine).UpdateTablePlayers
+//@   property C03 C16
+//@   returns seats, err
+//@   config M 2..10 quick 2..3 : te.table.Meta.TableMaxSeatCount = M, te.sm.MaxSeat = M, len(te.sm.SeatData) = M, len(te.table.State.SeatMap) = M
+//@   requires TableWF(te) && Coupled(te) && HandShape(te) && te.rg != nil && !held(te.lock)
+//@   requires 0 <= len(leavePlayerIDs) && len(leavePlayerIDs) <= MaxSeats(te) && batchOK(te, joinPlayers)
+//@   guarded te.lock : "pokertable.tableEngine.table", "pokertable.tableEngine.sm", "pokertable.Table.", "pokertable.TableState.", "pokertable.TablePlayerState."
+//@   modifies St(te).PlayerStates, St(te).SeatMap, St(te).GamePlayerIndexes, te.sm.SeatData[all], te.table.UpdateAt, te.table.UpdateSerial, log
+//@   loop 0 unroll 10
+//@   loop 1 unroll 10
+//@   ensures inv: TableWF(te) && Coupled(te)
+//@   ensures refused-changes-nothing: err != nil ==> playersSame(te) && seatsSame(te) && smSame(te)
